@@ -1433,3 +1433,124 @@ M("s4-b-rows-not-truncated", "C05", "fire S4", "src/compile.rs",
   """        let tag_b = b.remove(join_ty_size);
         b.truncate(elem_bits_b);""",
   """        let tag_b = b.remove(join_ty_size);""", "seed C05-b: rows of b keep the padding")
+
+# ---------------------------------------------------------------- C01
+M("v1-if-branches-swapped", "C01", "fire V1", "src/compile.rs",
+  """                    gate_indexes.push(circuit.push_mux(condition, case_true[i], case_false[i]));""",
+  """                    gate_indexes.push(circuit.push_mux(condition, case_false[i], case_true[i]));""", "if returns the else value when the condition holds")
+M("v1-and-is-or", "C01", "fire V1", "src/compile.rs",
+  """                vec![circuit.push_and(x[0], y[0])]""",
+  """                vec![circuit.push_or(x[0], y[0])]""", "&& evaluates to the disjunction")
+M("v2-tuple-offset-includes-field", "C01", "fire V2", "src/compile.rs",
+  """                        for v in values[0..*index].iter() {
+                            wires_before += v.size_in_bits_for_defs(prg, circuit.const_sizes());
+                        }
+                        (
+                            wires_before,
+                            values[*index].size_in_bits_for_defs(prg, circuit.const_sizes()),
+                        )
+                    }
+                    _ => panic!("Expected a tuple type, but found {:?}", tuple.meta),""",
+  """                        for v in values[0..*index].iter().skip(1) {
+                            wires_before += v.size_in_bits_for_defs(prg, circuit.const_sizes());
+                        }
+                        (
+                            wires_before,
+                            values[*index].size_in_bits_for_defs(prg, circuit.const_sizes()),
+                        )
+                    }
+                    _ => panic!("Expected a tuple type, but found {:?}", tuple.meta),""", "first element not counted in the offset")
+M("v2-quiet-struct-size-added-before-compare", "C01", "quiet", "src/compile.rs",
+  """                        let bits_of_field =
+                            field_ty.size_in_bits_for_defs(prg, circuit.const_sizes());
+                        if field_name == field {
+                            return struct_expr[bits..bits + bits_of_field].to_vec();
+                        }
+                        bits += bits_of_field;""",
+  """                        let bits_of_field =
+                            field_ty.size_in_bits_for_defs(prg, circuit.const_sizes());
+                        bits += bits_of_field;
+                        if field_name == field {
+                            return struct_expr[bits - bits_of_field..bits].to_vec();
+                        }""", "behaviour-preserving: size added first, slice [bits - size .. bits]")
+M("v3-foreach-steps-by-one", "C01", "fire V3", "src/compile.rs",
+  """                    i += elem_in_bits;
+                }
+                env.pop();""",
+  """                    i += 1;
+                }
+                env.pop();""", "for-each advances one bit per iteration")
+M("v4-array-literal-reversed", "C01", "fire V4", "src/compile.rs",
+  """                for elem in elems {
+                    wires.extend(elem.compile(prg, env, circuit));
+                }""",
+  """                for elem in elems.iter().rev() {
+                    wires.extend(elem.compile(prg, env, circuit));
+                }""", "array literal elements stored in reverse")
+M("v4-repeat-one-more", "C01", "fire V4", "src/compile.rs",
+  """                let mut array = Vec::with_capacity(bits);
+                for _ in 0..*size {
+                    array.extend_from_slice(&elem);
+                }""",
+  """                let mut array = Vec::with_capacity(bits);
+                for _ in 0..*size + 1 {
+                    array.extend_from_slice(&elem);
+                }""", "[x; n] has n + 1 elements")
+M("v5-enum-offset-by-one", "C01", "fire V5", "src/compile.rs",
+  """                            wires[w..w + f.len()].copy_from_slice(&f);
+                            w += f.len();""",
+  """                            wires[w..w + f.len()].copy_from_slice(&f);
+                            w += 1;""", "second enum field overlaps the first")
+M("v6-block-value-dropped", "C01", "fire V6", "src/compile.rs",
+  """    for stmt in stmts {
+        expr = stmt.compile(prg, env, circuit);
+    }""",
+  """    for stmt in stmts {
+        let wires = stmt.compile(prg, env, circuit);
+        if expr.is_empty() {
+            expr = wires;
+        }
+    }""", "a block evaluates to its first non-unit statement")
+M("v7-params-reversed", "C01", "fire V7", "src/compile.rs",
+  """                for (param, arg) in fn_def.params.iter().zip(args) {""",
+  """                for (param, arg) in fn_def.params.iter().rev().zip(args) {""", "arguments bound to the parameters in reverse")
+M("v8-read-mux-swapped", "C01", "fire V8", "src/compile.rs",
+  """                                let a0 = array[i];
+                                let a1 = array[i + elem_bits];
+                                muxed_array.push(circuit.push_mux(s, a1, a0));""",
+  """                                let a0 = array[i];
+                                let a1 = array[i + elem_bits];
+                                muxed_array.push(circuit.push_mux(s, a0, a1));""", "array read selects the lower element when the index bit is set")
+M("v9-record-width-is-offset", "C01", "fire V9", "src/compile.rs",
+  """                            accessed.push(Assign::Tuple(
+                                tuple_before_access,
+                                wires_before,
+                                wires_at_index,
+                            ));""",
+  """                            accessed.push(Assign::Tuple(
+                                tuple_before_access,
+                                wires_before,
+                                wires_before,
+                            ));""", "write-back width is the offset")
+M("v4-quiet-iter-explicit", "C01", "quiet", "src/compile.rs",
+  """                for value in tuple {
+                    wires.extend(value.compile(prg, env, circuit));
+                }""",
+  """                for value in tuple.iter() {
+                    let value_wires = value.compile(prg, env, circuit);
+                    wires.extend(value_wires);
+                }""", "behaviour-preserving: explicit iter and a temporary")
+
+M("v2-struct-size-added-before-compare-unadjusted", "C01", "fire V2", "src/compile.rs",
+  """                        let bits_of_field =
+                            field_ty.size_in_bits_for_defs(prg, circuit.const_sizes());
+                        if field_name == field {
+                            return struct_expr[bits..bits + bits_of_field].to_vec();
+                        }
+                        bits += bits_of_field;""",
+  """                        let bits_of_field =
+                            field_ty.size_in_bits_for_defs(prg, circuit.const_sizes());
+                        bits += bits_of_field;
+                        if field_name == field {
+                            return struct_expr[bits..bits + bits_of_field].to_vec();
+                        }""", "the accessed field's own size is part of its offset")
